@@ -111,6 +111,41 @@ CLAIMED = {
             "checked on the same path grammar.",
             "Trusted: the recording os proxy and realpath() of the host kernel as ground truth; private scratch tree per run.",
             "5 (C46)"),
+    "C21": ("simA", "seeded schedule search over block partitioning / quantum / cache / restart, judged against a single-step reference; ddmin + replay",
+            "Seeded sampling of (program, schedule) pairs on the real python and gcc jitters: block length, per-call limit, cache-size "
+            "limit, warm start, mid-run option changes, cache clears, stop/resume and warm/cold restarts; at every control point the full "
+            "machine state (pc, registers, all memory) must lie on the path of the single-step reference, in order, and the run must end in "
+            "the reference's final state.",
+            "Trusted: the reference is miasm's python backend in its most conservative schedule (1 instruction per block, cold cache); "
+            "x86_32 workload; python and gcc backends only (no llvmlite).",
+            "4 (C21)"),
+    "C23": ("simA", "seeded debugger-action histories at control points, expected hits computed from the reference pc sequence; ddmin + replay",
+            "Seeded sampling of breakpoint histories (add/set/remove by address/by callback, from inside callbacks, mid-block addresses of "
+            "already translated blocks, never-reached addresses, callbacks that stop the run) interleaved with partition changes; the "
+            "invocation log must equal the expectation computed by walking the reference pc sequence with the debugger's actions replayed "
+            "at their ticks; stops must leave pc on the breakpoint address.",
+            "Trusted: reference pc sequence; a callback (un)registered while the guest stands on that address is accepted either way for "
+            "that one arrival.",
+            "4 (C23)"),
+    "C22": ("simA", "seeded self-modifying programs and host writes racing the translator, judged against a cache-clearing reference; ddmin + replay",
+            "Seeded sampling of self-modifying programs (guest stores into immediates of already translated code cells before, between and "
+            "inside loops) and host writes (vm.set_mem on code and data at seeded control points), under all partition knobs, on both "
+            "backends; the reference clears its translation cache before every instruction and replays host writes at their stamped states.",
+            "Trusted: reference with per-step cache clearing; host writes are stamped by full-state digest (ambiguous stamps are discarded).",
+            "4 (C22)"),
+    "C49": ("simA", "seeded fault injection (unmap / permission flip) at control points with heal-and-resume, judged against the fault-free reference; ddmin + replay",
+            "Seeded sampling of fault schedules: data and stack pages are unmapped or lose R/W at seeded control points (aimed at memory the "
+            "program is about to touch, incl. the second page of straddling accesses); at the fault stop the fault flag must be pending, pc on "
+            "the faulting instruction and the whole state equal to the reference state before that instruction; after healing the run must "
+            "complete on the reference path.",
+            "Trusted: fault-free reference; REP string instructions are excluded from faulted programs (no per-iteration reference states).",
+            "4 (C49)"),
+    "C20": ("simA", "seeded replica comparison: python and gcc backends under one schedule with faults and breakpoints; ddmin + replay",
+            "Every seeded case (program, initial state, schedule with tuner, debugger and fault-injector actions, healed and terminal "
+            "faults) runs on the python and on the gcc backend with one block per call so that control points coincide; each replica is "
+            "judged against the reference and the two are compared directly (final state digest, breakpoint hit sequence).",
+            "Trusted: as C21; LLVM backend cannot run here (no llvmlite) - the claim covers python and gcc.",
+            "4 (C20)"),
 }
 
 
